@@ -6,8 +6,8 @@ echo "# Seeded changes vs the quick checks ($(date -u +%FT%TZ), /repo $(git -C /
 echo "" >> $out; echo "| seed | result | violations (with input) | broken tie only |" >> $out; echo "|---|---|---|---|" >> $out
 for d in $(ls -d seeded/C* | sort); do
   s=$(basename $d); p=${s%%-*}
-  if ! git -C /repo apply --check $d/patch.diff 2>/dev/null; then echo "| $s | patch no longer applies to the repaired tree | | |" >> $out; continue; fi
-  git -C /repo apply $d/patch.diff
+  if ! git -C /repo apply --check /verif/$d/patch.diff 2>/dev/null; then echo "| $s | patch no longer applies to the repaired tree | | |" >> $out; continue; fi
+  git -C /repo apply /verif/$d/patch.diff
   ./check $p --tier quick > /tmp/seedreg.out 2>&1; rc=$?
   git -C /repo checkout -- .
   git checkout -- lean/PsdVerif/Generated evidence 2>/dev/null
